@@ -295,8 +295,8 @@ PROPS['C03'] = dict(
          '10000-byte Text overflows the stack (ASan); Session::send_process has the same buffer and the same KNOWN FINDING (order with a 20000-byte Text through the real send_process: SIGSEGV); '
          'messages whose fields render to at most FIX8_MAX_MSG_LENGTH - 8 bytes fit in both (proved). '
          'NOT decided: the tokeniser call sites in MessageBase::decode / decode_group (2048-byte buffers against fields of up to the message length), '
-         'Message::factory / decode as a whole (totality, exception types), the encode side (Message::encode(f8String&) into a fixed stack buffer, Session::send_process).',
-    note='only the two char* tokenisers and extract_header\'s call sites are under contract; isdigit (C locale), memcpy (k-witness model), std::string data()/size() ASSUMED',
+         'Message::factory / decode as a whole (totality, exception types, hangs), the field encoders themselves.',
+    note='the two char* tokenisers, extract_header\'s call sites, decode\'s Length/data branch (bounded) and the two fixed encode buffers are under contract; isdigit (C locale), memcpy (k-witness model), std::string data()/size() ASSUMED',
     trusted_base=COMMON_TRUST,
     explanation='The callee contract states the weakest simple capacity condition (buffers as long as the input plus terminator); each caller is then checked against it, so a fixed-size stack buffer fed '
                 'by network input shows up as a failed, named precondition at that call site.',
